@@ -37,6 +37,7 @@ CONSTANTS Tables,      \* set of descriptors (cfg records) to start from
           MaxHavoc,    \* budget of HavocScratch steps (C20)
           KeepRec,     \* BOOLEAN: keep the last record in mon.last (simulation export only; FALSE for model checking)
           NestedTrigs, \* set of <<c, t>>: events a handler may trigger from inside its invocation (cat_trigger_unsolicited_event called in a handler)
+          NestedHx,    \* set of statuses: a handler may call cat_hold_exit(status) from inside its invocation
           EvMayHold    \* BOOLEAN: event handlers may return HOLD (outside the supported domain, DESIGN section 5; informational configuration only)
 
 VARIABLES S, mem, cfg, mon, nbytes, nlines, ntrig, nhx, nfail, ntog, lastRet, nhav
@@ -54,6 +55,7 @@ Init == /\ cfg \in Tables
 EditsOf(data) == IF Edits THEN {data, <<120>>} ELSE {data}
 \* what the handler does inside its invocation: nothing, or one trigger (either outcome is offered; the inconsistent one is discarded by ApplyIn)
 InsOf == {<<>>} \cup {<<[k |-> "api", f |-> "trigger", a |-> <<x[1], x[2]>>, ev |-> <<>>, ret |-> r]>> : x \in NestedTrigs, r \in {S_OK, S_FULL}}
+               \cup {<<[k |-> "api", f |-> "hold_exit", a |-> <<s>>, ev |-> <<>>, ret |-> r]>> : s \in NestedHx, r \in {S_OK, S_NOT_HOLD}}
 Candidates(mis) ==
   CASE mis.what = "rd" -> {[k |-> "rd", b |-> x, off |-> mis.exp] : x \in (IF nbytes < Len(Prefix) THEN {Prefix[nbytes + 1]}
                                                                       ELSE IF nbytes < MaxBytes THEN {b \in Bytes : b # LF \/ nlines < MaxLines} ELSE {})
